@@ -8,7 +8,7 @@
 From Coq Require Import List ZArith Bool Arith.
 From Mamba Require Import Codec.PruferMulticodeBase Codec.MulticodeModel Codec.PruferModel
   Codec.MulticodeProofs Codec.PruferTree Codec.PruferDecodeProofs Codec.PruferEncodeProofs
-  Codec.PruferConnected Codec.PruferProofs.
+  Codec.PruferConnected Codec.PruferNewDense Codec.PruferProofs.
 Import ListNotations.
 
 (* ------------------------------------------------------------------ Multicode *)
@@ -45,23 +45,23 @@ Print Assumptions C07_multicode_multiple.
 
 (* ------------------------------------------------------------------ Pruefer *)
 
-(* For every n >= 2 and every code c in {0..n-1}^(n-2) (n = |c| + 2): PruferDecode does not
-   panic, hands NewDense n and a bit vector of the right length, the graph is a tree on the n
-   vertices ([is_tree]: leaf elimination; Props theorems below relate it to connectedness and
-   the edge count), and PruferEncode of that tree is c. *)
+(* For every n >= 2 and every code c in {0..n-1}^(n-2) (n = |c| + 2): PruferDecode (including
+   its call of NewDense) does not panic and returns the DenseGraph equal to a graph
+   [code_graph c] on n vertices that is a tree ([is_tree]: leaf elimination; theorems below
+   relate it to connectedness and the edge count), and PruferEncode of that tree is c. *)
 Theorem C07_prufer_decode_encode : forall c, valid_code c ->
-  prufer_decode (map Z.of_nat c) = Ok (length c + 2, code_bits c) /\
-  length (code_bits c) = tri (length c + 2) /\
+  prufer_decode (map Z.of_nat c) = Ok (dense_of (code_graph c)) /\
+  gn (code_graph c) = length c + 2 /\
   is_tree (code_graph c) /\
   prufer_encode (code_graph c) = Ok (map Z.of_nat c).
 Proof. exact prufer_decode_encode. Qed.
 Print Assumptions C07_prufer_decode_encode.
 
 (* The converse: for every labelled tree g on n >= 2 vertices PruferEncode does not panic, its
-   result is a code in {0..n-1}^(n-2), and PruferDecode of it gives back n and the edge bytes of g. *)
+   result is a code in {0..n-1}^(n-2), and PruferDecode of it is the DenseGraph equal to g. *)
 Theorem C07_prufer_encode_decode : forall g, simple g -> gn g >= 2 -> is_tree g ->
   exists c, prufer_encode g = Ok (map Z.of_nat c) /\ length c = gn g - 2 /\ valid_code c /\
-            prufer_decode (map Z.of_nat c) = Ok (gn g, tri_bits g).
+            prufer_decode (map Z.of_nat c) = Ok (dense_of g).
 Proof. exact prufer_encode_decode. Qed.
 Print Assumptions C07_prufer_encode_decode.
 
@@ -90,7 +90,7 @@ Print Assumptions C07_prufer_decode_connected_tree.
 Theorem C07_prufer_encode_decode_connected : forall g, simple g -> gn g >= 2 ->
   connected (gadj g) (seq 0 (gn g)) /\ gm g = (Z.of_nat (gn g) - 1)%Z ->
   exists c, prufer_encode g = Ok (map Z.of_nat c) /\ length c = gn g - 2 /\ valid_code c /\
-            prufer_decode (map Z.of_nat c) = Ok (gn g, tri_bits g).
+            prufer_decode (map Z.of_nat c) = Ok (dense_of g).
 Proof. exact prufer_encode_decode_connected. Qed.
 Print Assumptions C07_prufer_encode_decode_connected.
 
@@ -109,11 +109,27 @@ Proof. vm_compute. repeat split. Qed.
 
 Example C07_prufer_nonvacuous :
   valid_code [3; 3; 0; 4] /\
-  prufer_decode [3; 3; 0; 4]%Z = Ok (6, code_bits [3; 3; 0; 4]) /\
+  prufer_decode [3; 3; 0; 4]%Z = Ok (dense_of (code_graph [3; 3; 0; 4])) /\
   prufer_encode (code_graph [3; 3; 0; 4]) = Ok [3; 3; 0; 4]%Z /\
   prufer_encode ex_graph = Ok [0; 3; 1]%Z /\
-  prufer_decode [0; 3; 1]%Z = Ok (5, tri_bits ex_graph).
+  prufer_decode [0; 3; 1]%Z = Ok (dense_of ex_graph).
 Proof.
   split; [intros x Hx; repeat (destruct Hx as [<-|Hx]; [simpl; repeat constructor|]); destruct Hx|].
   vm_compute. repeat split.
+Qed.
+
+(* the hypotheses of the converse round trip are satisfiable: ex_graph is a simple tree *)
+Example C07_tree_nonvacuous : simple ex_graph /\ is_tree ex_graph /\ gn ex_graph >= 2.
+Proof.
+  split; [split|split].
+  - intros; apply adjL_sym.
+  - intros; apply (adjL_irr 5). intros a b H; simpl in H.
+    repeat (destruct H as [H|H]; [inversion H; subst; repeat split; auto 10 with arith; discriminate|]). destruct H.
+  - unfold is_tree. cbn [gn gadj ex_graph seq].
+    apply (lt_leaf _ _ 2 0); [simpl; auto 10|simpl; auto 10|reflexivity|reflexivity|cbn].
+    apply (lt_leaf _ _ 0 3); [simpl; auto 10|simpl; auto 10|reflexivity|reflexivity|cbn].
+    apply (lt_leaf _ _ 3 1); [simpl; auto 10|simpl; auto 10|reflexivity|reflexivity|cbn].
+    apply (lt_leaf _ _ 1 4); [simpl; auto 10|simpl; auto 10|reflexivity|reflexivity|cbn].
+    apply lt_one.
+  - simpl. auto with arith.
 Qed.
